@@ -81,6 +81,60 @@ func (c *Ctx) checkLockDiscipline(r *Report, rule string, li *lockInfo, rels []s
 			}
 		})
 	}
+	// Completion runs user code: Fail/Success -> finish -> the transaction's finally callback, and every finally
+	// callback in this repository deletes the transaction from its store (taking the store's lock). A dynamic call of
+	// a transactions.FinallyCallback value may therefore acquire whatever any closure passed as such a callback
+	// acquires; an interface call of Fail/Success on a transactions interface may do what any implementation does.
+	isFinallyType := func(v ssa.Value) bool { return typeIs(v.Type(), pkTrans, "FinallyCallback") }
+	var finallyClosures []*ssa.Function
+	for _, f := range funcs {
+		allInstrs(f, func(i ssa.Instruction) {
+			ci, ok := i.(ssa.CallInstruction)
+			if !ok {
+				return
+			}
+			for _, a := range ci.Common().Args {
+				v := a
+				for {
+					if ct, ok := v.(*ssa.ChangeType); ok {
+						v = ct.X
+						continue
+					}
+					break
+				}
+				if !isFinallyType(a) {
+					continue
+				}
+				if mc, ok := v.(*ssa.MakeClosure); ok {
+					if cl, ok := mc.Fn.(*ssa.Function); ok {
+						finallyClosures = append(finallyClosures, cl)
+					}
+				}
+			}
+		})
+	}
+	completionImpls := func(name string) []*ssa.Function {
+		var out []*ssa.Function
+		for _, f := range funcs {
+			if f.Name() == name && f.Signature.Recv() != nil && fnPkgPath(f) == pkTrans {
+				out = append(out, f)
+			}
+		}
+		return out
+	}
+	dynTargets := func(ci ssa.CallInstruction) []*ssa.Function {
+		cc := ci.Common()
+		if cc.IsInvoke() {
+			if (cc.Method.Name() == "Fail" || cc.Method.Name() == "Success") && cc.Method.Pkg() != nil && cc.Method.Pkg().Path() == pkTrans {
+				return completionImpls(cc.Method.Name())
+			}
+			return nil
+		}
+		if staticCallee(cc) == nil && isFinallyType(cc.Value) {
+			return finallyClosures
+		}
+		return nil
+	}
 	for changed, n := true, 0; changed && n < 30; n++ {
 		changed = false
 		for _, f := range funcs {
@@ -91,6 +145,14 @@ func (c *Ctx) checkLockDiscipline(r *Report, rule string, li *lockInfo, rels []s
 				}
 				if _, isGo := i.(*ssa.Go); isGo {
 					return
+				}
+				for _, t := range dynTargets(ci) {
+					for k := range acquires[t] {
+						if !acquires[f][k] {
+							acquires[f][k] = true
+							changed = true
+						}
+					}
 				}
 				g := staticCallee(ci.Common())
 				if g == nil || acquires[g] == nil {
@@ -144,7 +206,23 @@ func (c *Ctx) checkLockDiscipline(r *Report, rule string, li *lockInfo, rels []s
 				return
 			}
 			g := staticCallee(ci.Common())
-			if g == nil || acquires[g] == nil {
+			if g == nil {
+				// completion through an interface / the finally callback itself
+				for _, t := range dynTargets(ci) {
+					for k := range acquires[t] {
+						base := strings.TrimSuffix(k, "(R)")
+						if held[base] || (held[base+"(R)"] && !strings.HasSuffix(k, "(R)")) {
+							nLock++
+							r.fn(f)
+							r.bad(rule, fmt.Sprintf("%s:reacquires(%s)->completion", fnKey(f), base), c.instrPos(i),
+								"a transaction is completed (Fail/Success, which runs its finally callback) while "+base+" is held, and the finally callbacks of this repository take that very lock to delete the transaction from its store: the goroutine deadlocks on itself and everything that needs the store hangs")
+							return
+						}
+					}
+				}
+				return
+			}
+			if acquires[g] == nil {
 				return
 			}
 			if mayBlock[g] != "" {
